@@ -1570,6 +1570,12 @@ impl Collection {
         Ok(())
     }
 
+    /// Whether this handle is read-only on its own account (the database's
+    /// flag is not consulted).
+    pub(crate) fn is_read_only(&self) -> bool {
+        self.read_only.load(Ordering::Acquire)
+    }
+
     /// Sets the collection to read-only mode.
     ///
     /// # Arguments
@@ -1599,6 +1605,22 @@ impl Collection {
     /// # Returns
     /// Ok(()) if successful, or an error if closing fails
     pub async fn close(&self) -> Result<(), DBError> {
+        let was_read_only = self.database_read_only.load(Ordering::Acquire)
+            || self.read_only.load(Ordering::Acquire);
+        self.close_as(was_read_only).await
+    }
+
+    /// [`Collection::close`] for a handle whose read-only state *before the
+    /// close began* is known to the caller.
+    ///
+    /// A handle that was read-only (itself or through its database) when it
+    /// was asked to close writes nothing: it is retired without the final
+    /// flush, and whatever it had accepted before it became read-only is
+    /// recovered on the next open, like after an unclean stop. `AndaDB::close`
+    /// publishes the database's read-only flag as its admission barrier before
+    /// it closes the collections, so it samples the state first and passes it
+    /// in — the flag alone no longer tells the two cases apart.
+    pub(crate) async fn close_as(&self, was_read_only: bool) -> Result<(), DBError> {
         loop {
             match self.lifecycle.load(Ordering::Acquire) {
                 LIFECYCLE_ACTIVE => {
@@ -1634,9 +1656,14 @@ impl Collection {
 
         let start = Instant::now();
         let now_ms = unix_ms();
-        let guard = self.cancel_guard("Collection::close");
-        let rt = self.flush_inner(now_ms).await;
-        guard.disarm();
+        let rt = if was_read_only {
+            Ok(false)
+        } else {
+            let guard = self.cancel_guard("Collection::close");
+            let rt = self.flush_inner(now_ms).await;
+            guard.disarm();
+            rt
+        };
         let elapsed = start.elapsed();
         match rt {
             Ok(_) => {
